@@ -91,4 +91,15 @@ theorem gen_tx_pinned :
 theorem gen_pragmas_pinned :
     Gen.storePragmas = ["\"_pragma=busy_timeout(8000)&_pragma=foreign_keys(1)&_pragma=journal_mode(WAL)&_pragma=synchronous(NORMAL)&_pragma=journal_size_limit(100000000)\""] := rfl
 
+/-- non-vacuity: a history of three batches, two acknowledged when the writer died; the two recoverable stores differ (the
+    third batch changes a point) and both are prefix states; the empty store satisfies the invariant the theorems start from -/
+example :
+    let ops : List WOp := [
+      .ep [97] [] [{ type := tombstoneT, time := 3 }, { type := nodeTypeT, text := [100], time := 3 }],
+      .np [97] [{ type := [1], time := 5, value := 4607182418800017408 }],
+      .np [97] [{ type := [1], time := 7, value := 4611686018427387904 }]]
+    Inv ({} : St) ∧ recovered {} ops 2 false = run {} (ops.take 2) ∧ recovered {} ops 2 true = run {} ops ∧
+      recovered {} ops 2 false ≠ recovered {} ops 2 true :=
+  ⟨c03_reachable [], by decide +kernel, by decide +kernel, by decide +kernel⟩
+
 end Siot.Crash
